@@ -164,5 +164,14 @@ TEXT = {
                 "histories",
         "technique": "runtime monitoring: byte-hash write sanitizer and state snapshots around every operation of generated histories; differential oracle across fresh interpreters for instantiation-order dependence",
     },
+    "C19": {
+        "level": "Held on the executions observed: large structured operators x every entry point with a structural rule, with and "
+                 "without the algorithm argument, under a halt-on-error densification-event monitor, a tracemalloc peak bound (64 x "
+                 "(operand + factor storage + n) x itemsize; a dense materialisation exceeds it by >= 15x by construction) and a "
+                 "factor-wise correctness reference.",
+        "note": _NOTE + "; NumPy reports its buffers to tracemalloc; adjoint products of operators without an explicit left product go "
+                "through the harness shim's linear_transpose (which materialises the map) and are therefore not used by this check",
+        "technique": "runtime monitoring: allocation meter (tracemalloc peak) + halt-on-error event monitor on to_dense / identity-width products / dispatch path",
+    },
 }
 NOT_APPLICABLE = {}
